@@ -144,7 +144,7 @@ func (s *State) clone() *State {
 }
 
 func (s *State) assume(t *Term) {
-	if t.IsTrue() {
+	if t.IsTrue() || t == tErr {
 		return
 	}
 	if t.Op == "and" {
